@@ -12,6 +12,8 @@ pub const REALM: &str = "example.org";
 pub enum RClass {
     Success,
     Error(u16),
+    /// error-response class without an ERROR-CODE attribute
+    ErrorNoCode,
     Indication,
     Request,
 }
@@ -148,6 +150,7 @@ pub fn build_reply(w: &World, tid: [u8; 12], req: Option<&[u8]>, r: &Reply) -> V
     let (class, mut attrs): (u8, Vec<L>) = match r.class {
         RClass::Success => (2, vec![L::XorMappedAddress(Addr::V4([192, 0, 2, 1], 32853))]),
         RClass::Error(code) => (3, vec![L::ErrorCode(code, "".into())]),
+        RClass::ErrorNoCode => (3, vec![L::Software("no-error-code".into())]),
         RClass::Indication => (1, vec![L::Software("ind".into())]),
         RClass::Request => (0, vec![L::Software("req".into())]),
     };
